@@ -25,6 +25,7 @@ const PAD: u64 = 0x0000_1200_0000_0000;
 
 static STATIC_TSS: TaskStateSegment = TaskStateSegment::new();
 
+
 unsafe fn peek(addr: u64) -> u64 {
     (addr as *const u64).read_unaligned()
 }
@@ -107,7 +108,17 @@ pub fn gen(seed: u64) -> Replay {
         match rng.weighted(&[6, 5, 3, 3, 2]) {
             0 => {
                 if rng.chance(8) {
-                    steps.push(json!({"op": "tss_desc", "via": "static", "pad": pad}));
+                    // a seeded lower-half address (P4 slots 176..239 are free in this process), 8-byte
+                    // aligned, all lower address bits varied
+                    let at = ((176 + rng.below(64)) << 39) | (rng.below(1 << 39) & !7);
+                    let at = if at & 0xfff > 0xf00 { at & !0xfff } else { at };
+                    if rng.chance(60) {
+                        // the TSS holds seeded contents (I/O-map base beyond the structure, etc.)
+                        let iomap = *rng.pick(&[0x68u64, 0x69, 0x100, 0x2000, 0xffff, 0, 0x67]);
+                        steps.push(json!({"op": "tss_desc", "via": "static", "pad": pad, "iomap": iomap, "at": at}));
+                    } else {
+                        steps.push(json!({"op": "tss_desc", "via": "static", "pad": pad, "at": at}));
+                    }
                     continue;
                 }
                 let ptr = match rng.below(10) {
@@ -180,10 +191,43 @@ pub fn gen(seed: u64) -> Replay {
 fn step_tss_desc(s: &Value, i: usize, st: &mut Stats) -> Option<Violation> {
     let is_static = s["via"] == "static";
     // the address of the static is a host address: it never appears in a violation text
-    let ptr = if is_static { &STATIC_TSS as *const TaskStateSegment as u64 } else { s["ptr"].as_u64().unwrap_or(0) };
-    let show = |v: u64| if is_static { "<address of the static TSS>".to_string() } else { format!("{v:#x}") };
+    // the `&'static TaskStateSegment` of the safe constructor lives at a SEEDED address (a page pair
+    // mapped for the duration of the step), so that the step behaves the same in every process
+    let at = s["at"].as_u64().unwrap_or((200u64 << 39) + 0x1000);
+    let mut mapped_at = 0u64;
+    let stat: &'static TaskStateSegment = if is_static {
+        unsafe {
+            let page = at & !0xfff;
+            let r = libc::mmap(page as *mut libc::c_void, 8192, libc::PROT_READ | libc::PROT_WRITE, libc::MAP_PRIVATE | libc::MAP_ANONYMOUS | libc::MAP_FIXED_NOREPLACE, -1, 0);
+            if r as u64 != page {
+                eprintln!("HARNESS-ERROR: cannot map the TSS page at {page:#x}");
+                std::process::exit(2);
+            }
+            mapped_at = page;
+            let t = at as *mut TaskStateSegment;
+            t.write(TaskStateSegment::new());
+            if let Some(io) = s["iomap"].as_u64() {
+                (*t).iomap_base = io as u16;
+                (*t).interrupt_stack_table[0] = x86_64::VirtAddr::new_truncate(io << 12);
+            }
+            &*t
+        }
+    } else {
+        &STATIC_TSS
+    };
+    struct Unmap(u64);
+    impl Drop for Unmap {
+        fn drop(&mut self) {
+            if self.0 != 0 {
+                unsafe { libc::munmap(self.0 as *mut libc::c_void, 8192) };
+            }
+        }
+    }
+    let _unmap = Unmap(mapped_at);
+    let ptr = if is_static { stat as *const TaskStateSegment as u64 } else { s["ptr"].as_u64().unwrap_or(0) };
+    let show = |v: u64| format!("{v:#x}");
     let pad = s["pad"].as_u64().unwrap_or(0) as usize;
-    let made = sut_call("tss_segment", || if is_static { Descriptor::tss_segment(&STATIC_TSS) } else { unsafe { Descriptor::tss_segment_unchecked(ptr as *const TaskStateSegment) } });
+    let made = sut_call("tss_segment", || if is_static { Descriptor::tss_segment(stat) } else { unsafe { Descriptor::tss_segment_unchecked(ptr as *const TaskStateSegment) } });
     st.calls += 1;
     let d = match made {
         Ok(d) => d,
